@@ -95,19 +95,31 @@ impl Drop for Tracked {
     }
 }
 
-#[derive(Clone)]
 pub struct Val {
     pub p: i8,
     pub t: Option<Tracked>,
+    /// added to `p` in every comparison; changed only by the closures of the
+    /// "values change during the traversal" mode of C07 (interference 3 / 4)
+    pub bump: std::sync::atomic::AtomicI8,
+}
+
+impl Clone for Val {
+    fn clone(&self) -> Val {
+        Val { p: self.p, t: self.t.clone(), bump: std::sync::atomic::AtomicI8::new(self.bump.load(AO::SeqCst)) }
+    }
 }
 
 impl Val {
     pub fn new(p: i8) -> Val {
-        Val { p, t: None }
+        Val { p, t: None, bump: std::sync::atomic::AtomicI8::new(0) }
+    }
+    fn eff(&self) -> i16 {
+        self.p as i16 + self.bump.load(AO::SeqCst) as i16
     }
     pub fn tracked(p: i8, id: u8, reg: &Arc<Registry>) -> Val {
         Val {
             p,
+            bump: std::sync::atomic::AtomicI8::new(0),
             t: Some(Tracked {
                 id,
                 original: true,
@@ -119,18 +131,18 @@ impl Val {
 
 impl PartialEq for Val {
     fn eq(&self, o: &Val) -> bool {
-        self.p == o.p
+        self.eff() == o.eff()
     }
 }
 impl Eq for Val {}
 impl PartialOrd for Val {
     fn partial_cmp(&self, o: &Val) -> Option<std::cmp::Ordering> {
-        Some(self.p.cmp(&o.p))
+        Some(self.eff().cmp(&o.eff()))
     }
 }
 impl Ord for Val {
     fn cmp(&self, o: &Val) -> std::cmp::Ordering {
-        self.p.cmp(&o.p)
+        self.eff().cmp(&o.eff())
     }
 }
 impl std::fmt::Display for Val {
@@ -346,6 +358,8 @@ pub trait Fl: 'static + Sized {
     fn node(k: K, v: Val) -> Self::Node;
     fn key(n: &Self::Node) -> K;
     fn pval(n: &Self::Node) -> i8;
+    /// change the node's value (as comparisons see it) by `d`
+    fn bump(n: &Self::Node, d: i8);
     fn deref_pval(n: &Self::Node) -> i8;
 
     fn connect(a: &Self::Node, b: &Self::Node, e: E);
@@ -477,6 +491,9 @@ macro_rules! common_items {
         }
         fn key(n: &Self::Node) -> K {
             n.key().0
+        }
+        fn bump(n: &Self::Node, d: i8) {
+            n.value().bump.fetch_add(d, AO::SeqCst);
         }
         fn pval(n: &Self::Node) -> i8 {
             n.value().p
